@@ -750,6 +750,153 @@ def store_corpus(name, line, comment):
             fh.write("# " + comment + "\n" + line + "\n")
 
 
+# --------------------------------------------------------------------------------------------------
+# scenario class: every out-of-place operation × destination narrower than / as wide as the natural
+# result × a.budget </=/> b.budget × a.delta </=/> b.delta (value check on)
+# --------------------------------------------------------------------------------------------------
+BINARY_CT = ["add", "sub", "mul", "mul_add_ct", "mul_sub_ct"]
+UNARY_OUT = ["add_pt_znx", "sub_pt_znx", "add_pt_rnx", "sub_pt_rnx", "add_cst_rnx", "sub_cst_rnx", "add_cst_znx", "sub_cst_znx",
+             "neg", "square", "mul_pt_znx", "mul_pt_rnx", "mul_cst_rnx", "mul_add_pt_znx", "mul_sub_pt_znx", "mul_add_pt_rnx",
+             "mul_sub_pt_rnx", "mul_add_cst_rnx", "mul_sub_cst_rnx", "mul_pow2", "div_pow2", "rot", "conj", "rescale"]
+MANY_OUT = ["add_many", "mul_many", "dot_ct", "dot_pt_znx", "dot_pt_rnx", "dot_cst_rnx"]
+REL = {-1: "<", 0: "=", 1: ">"}
+
+
+def sgn(x):
+    return (x > 0) - (x < 0)
+
+
+def scenario_programs(rng, reps):
+    """deterministic grid, random parameters inside each cell"""
+    lines = []
+    idx = 0
+    for rep in range(reps):
+        for name in BINARY_CT + UNARY_OUT:
+            for narrow in (1, 0):
+                for brel in ((-1, 0, 1) if name in BINARY_CT else (0,)):
+                    for drel in (-1, 0, 1):
+                        be, q = BACKENDS[idx % 4]
+                        idx += 1
+                        W = 7 if q == 52 else 9
+                        d = rng.range(26, 40) if q == 52 else rng.range(14, 22)
+                        B = rng.range(150, 200) if q == 52 else rng.range(70, 90)
+                        g = rng.range(3, 9)
+                        r = rng.range(1, q + 5) if q == 52 else rng.range(1, 20)
+                        da, db = (d - g, d) if drel < 0 else (d, d - g) if drel > 0 else (d, d)
+                        ba, bb = (B - r, B) if brel < 0 else (B, B - r) if brel > 0 else (B, B)
+                        ka, kb = da + ba, db + bb
+                        pre = [f"enc,0,{ka},{da},0,{q}"]
+                        binary = name in BINARY_CT
+                        if binary:
+                            pre.append(f"enc,1,{kb},{db},0,{q}")
+                        # natural effective_k of the result
+                        pd = db                     # plaintext / constant precision plays the role of b's delta
+                        if name in ("add", "sub"):
+                            nat = min(ka, kb)
+                        elif name in ("mul", "mul_add_ct", "mul_sub_ct"):
+                            nat = min(ba, bb) - max(da, db) + min(da, db)
+                        elif name == "square":
+                            nat = ba - da + da
+                        elif name.startswith("mul_pt") or name.startswith("mul_cst") or name.startswith("mul_add_pt") or name.startswith("mul_sub_pt") \
+                                or name.startswith("mul_add_cst") or name.startswith("mul_sub_cst"):
+                            nat = ba - pd + da
+                        elif name == "rescale":
+                            nat = ka - r
+                        else:
+                            nat = ka
+                        if narrow:
+                            size = max(1, (nat - 1) // q - rng.below(2))
+                        else:
+                            size = min(W, nat // q + 1 + rng.below(2))
+                        if size * q >= nat and narrow:
+                            size = max(1, size - 1)
+                        pool = f"{W}:0:0/{W}:0:0/{size}:0:0"
+                        if name.startswith("mul_add") or name.startswith("mul_sub"):
+                            # the destination of a multiply-accumulate holds a value
+                            kd = min(size * q, nat if nat > d + 4 else size * q)
+                            pre.append(f"enc,2,{max(kd, da + 2)},{min(da, db)},0,{q}")
+                        if binary:
+                            op = f"{name},2,0,1"
+                        elif name in ("add_pt_znx", "sub_pt_znx", "mul_pt_znx", "mul_add_pt_znx", "mul_sub_pt_znx"):
+                            op = f"{name},2,0,{pd},{rng.range(0, 6)},{q}"
+                        elif name in ("add_pt_rnx", "sub_pt_rnx", "mul_pt_rnx", "mul_add_pt_rnx", "mul_sub_pt_rnx"):
+                            op = f"{name},2,0,{pd},{rng.range(0, 6)}"
+                        elif name in ("add_cst_rnx", "sub_cst_rnx", "mul_cst_rnx", "mul_add_cst_rnx", "mul_sub_cst_rnx"):
+                            re, im = rng.choice([(1, 0), (0, 1), (1, 1)])
+                            op = f"{name},2,0,{pd},{rng.range(0, 6)},{re},{im}"
+                        elif name in ("add_cst_znx", "sub_cst_znx"):
+                            off = max(0, ka - size * q)
+                            re, im = rng.choice([(1, 0), (0, 1), (1, 1)])
+                            op = f"{name},2,0,{max(1, ba - off) + pd},{pd},{re},{im}"
+                        elif name in ("neg", "square", "conj"):
+                            op = f"{name},2,0"
+                        elif name in ("mul_pow2", "div_pow2"):
+                            op = f"{name},2,0,{rng.range(1, 6)}"
+                        elif name == "rot":
+                            op = f"{name},2,0,1"
+                        elif name == "rescale":
+                            op = f"rescale,2,{r},0"
+                        else:
+                            continue
+                        n = 16 if idx % 3 else 64
+                        lines.append(f"be={be} n={n} base2k={q} maxprec=53 keys=1 pool={pool} vals=1 mag=1.0 ops=" + ";".join(pre + [op]))
+    return lines
+
+
+def cells_of(line, impl_steps):
+    """(op, offset > 0, budget relation) of every out-of-place call that returned Ok, computed from
+    the implementation's own states"""
+    kv, keys, pool, ops = parse_header(line)
+    q = int(kv["base2k"])
+    st = [(d, b, s) for (s, d, b) in pool]
+    out = []
+    for i, op in enumerate(ops):
+        if i >= len(impl_steps) or "@" not in impl_steps[i]:
+            break
+        f = op.split(",")
+        name = f[0]
+        try:
+            if impl_steps[i].startswith("ok") and (name in BINARY_CT or name in UNARY_OUT):
+                dd, db_, ds = st[int(f[1])]
+                K = ds * q
+                if name in BINARY_CT:
+                    (da, ba, _), (dbb, bb, _) = st[int(f[2])], st[int(f[3])]
+                    rel = REL[sgn(ba - bb)]
+                    if name in ("add", "sub"):
+                        nat = min(da + ba, dbb + bb)
+                    else:
+                        nat = min(ba, bb) - max(da, dbb) + min(da, dbb)
+                else:
+                    a = int(f[3]) if name == "rescale" else int(f[2])
+                    da, ba, _ = st[a]
+                    rel = "-"
+                    if name == "rescale":
+                        nat = da + ba - int(f[2])
+                    elif name == "square":
+                        nat = ba
+                    elif name.startswith("mul_") and name not in ("mul_pow2",):
+                        nat = ba - int(f[3]) + da
+                    else:
+                        nat = da + ba
+                out.append((name, nat > K, rel))
+        except (IndexError, ValueError):
+            pass
+        st = [tuple(int(x) for x in e.split(".")) for e in impl_steps[i].split("@")[1].split("/")]
+    return out
+
+
+def required_cells():
+    req = []
+    for name in BINARY_CT:
+        for off in (True, False):
+            for rel in "<=>":
+                req.append((name, off, rel))
+    for name in UNARY_OUT:
+        for off in (True, False):
+            req.append((name, off, "-"))
+    return req
+
+
 def run(ctx):
     rng = ctx.rng
     quick = ctx.tier == "quick"
@@ -773,6 +920,7 @@ def run(ctx):
     if drv is None:
         broken.append("model driver does not build")
     hist = {}
+    cells = {}
     vstats = {"checked": 0, "worst_slack": -99.0, "failed": 0}
     findings = {}          # key -> (line, description)
     unknown = []           # (line, description)
@@ -800,6 +948,8 @@ def run(ctx):
                     pass
                 hist[(name, kind)] = hist.get((name, kind), 0) + 1
                 ctx.count_case((kv["be"], kv["n"], name, kind) + feat, nontrivial=True)
+            for cell in cells_of(line, i):
+                cells[cell] = cells.get(cell, 0) + 1
             if k is not None:
                 ctx.disagreements += 1
                 disagree.append((line, k, m[k] if k < len(m) else "-", i[k] if k < len(i) else "-"))
@@ -845,6 +995,11 @@ def run(ctx):
         if cl:
             judge([l for _, l in cl], "corpus")
         ctx.cov["corpus_programs"] = len(cl)
+        # ---- scenario grid: every out-of-place op × narrow/wide destination × budget relation × delta relation
+        sl = scenario_programs(rng.fork(), 1 if quick else 20)
+        for off in range(0, len(sl), 500):
+            judge(sl[off:off + 500], "scenario")
+        ctx.cov["scenario_programs"] = len(sl)
         # ---- generated programs
         n_prog = 300 if quick else 20000
         max_steps = 12 if quick else 16
@@ -892,6 +1047,11 @@ def run(ctx):
         ctx.cov["roundtrip"] = {"cases": len(rt), "worst_encoder_log2_rel": worst_enc, "worst_quantised_log2_times_delta": worst_full, "bad": rt_bad}
 
     # ---- reporting
+    ctx.cov["cells_op_offset_budgetrel"] = {f"{n}|off>0={int(o)}|{r}": v for (n, o, r), v in sorted(cells.items())}
+    empty = [f"{n}|off>0={int(o)}|{r}" for (n, o, r) in required_cells() if cells.get((n, o, r), 0) == 0]
+    ctx.cov["empty_cells"] = empty
+    if empty and binp is not None and drv is not None:
+        broken.append("scenario grid left cells without an Ok call: " + ", ".join(empty[:12]))
     ctx.cov["outcome_histogram"] = {f"{k[0]}:{k[1]}": v for k, v in sorted(hist.items())}
     ctx.cov["values"] = vstats
     ctx.cov["finding_keys_seen"] = sorted(findings)
